@@ -275,7 +275,46 @@ def structural_edits(prog, rng):
     return out
 
 
+def regroup_match(rng):
+    """modes of two and more digits: a program whose mode list has the same DIGITS grouped differently
+    ([1, 12] -> [11, 2] -> [112]) is another program (seeded C17/k: node labels built by joining gate name and
+    mode numbers without a separator); the true instantiation, in either order, still matches"""
+    import blackbird
+    from blackbird.utils import match_template, TemplateError
+    a = rng.randrange(3, 10)
+    b = rng.randrange(1, 10)
+    c = rng.randrange(10, 100)
+    r, t = rng.randrange(1, 9) / 4, rng.randrange(1, 9) / 8
+    H = "name t\nversion 1.0\n\n"
+    gate = rng.choice(["BSgate(2*{t} + 1, 0.5)", "MeasureFock()", "S2gate({t}, 0.0)"])
+    tt = H + "Sgate({r}, 0.0) | %d\n%s | [%d, %d]\n" % (a * 1000, gate, b, c)
+    inst = gate.replace("{t}", repr(t))
+    groups = [[int(str(b) + str(c)[0]), int(str(c)[1:])], [int(str(b) + str(c))], [int(str(b) + str(c)[0]), int(str(c)[1]), 0][:2 + (c % 2)]]
+    template = blackbird.loads(tt)
+    good = blackbird.loads(H + "%s | [%d, %d]\nSgate(%r, 0.0) | %d\n" % (inst, b, c, r, a * 1000))
+    try:
+        res = match_template(template, good)
+    except Exception as e:  # noqa: BLE001
+        return "the true instantiation is rejected: %r" % (e,), tt
+    if abs(res.get("r", 1e9) - r) > 1e-9 or ("{t}" in gate and abs(res.get("t", 1e9) - t) > 1e-9):
+        return "wrong values %r for r=%r t=%r" % (res, r, t), tt
+    for g in groups:
+        if g == [b, c]:
+            continue
+        edited = blackbird.loads(H + "%s | %s\nSgate(%r, 0.0) | %d\n" % (inst, g, r, a * 1000))
+        try:
+            res = match_template(template, edited)
+        except TemplateError:
+            continue
+        except Exception as e:  # noqa: BLE001
+            return "mode list %s instead of [%d, %d] raises %r instead of TemplateError" % (g, b, c, e), tt
+        return "mode list %s instead of [%d, %d] is accepted: %r" % (g, b, c, res), tt
+    return None, tt
+
+
 def replay(ctx, data):
+    if data.get("kind") == "regroup_match":
+        return regroup_match(random.Random(data["seed"]))[0]
     if data.get("kind") == "special_match":
         return special_match(random.Random(data["seed"]), data["k"])[0]
     if data.get("kind") == "tdm_match":
@@ -363,6 +402,13 @@ def run(ctx):
         ctx.case(("special", k, sd), nontrivial=True)
         if msg:
             ctx.violation("template matching: " + msg, {"kind": "special_match", "seed": sd, "k": k})
+    for k in range(ctx.n(20, 200)):
+        sd = ctx.rng.randrange(1 << 30)
+        msg, tt = regroup_match(random.Random(sd))
+        ctx.count("stream:mode-digits-regrouped")
+        ctx.case(("regroup", sd), nontrivial=True)
+        if msg:
+            ctx.violation("template matching: " + msg, {"kind": "regroup_match", "seed": sd})
     for _ in range(ctx.n(60, 600)):
         tt, tp, want = gen_tdm_match(ctx.rng)
         ctx.count("stream:tdm-p-arrays-in-parameter-places")
